@@ -39,6 +39,9 @@ def _case(seed, i, tier):
         case["ops"][-2] = {"op": "regrid", "s": dict(good), "tag": "repair-final"} \
             if i % 12 == 2 else case["ops"][-2]
         del extra
+    if i % 6 == 4 and not any("junk" in op for op in case["ops"]):
+        # stratum: the GUI passes its whole options table; other rows may have been edited
+        case["ops"][-2] = dict(case["ops"][-2], junk=dict(RS.JUNK_BENIGN))
     if mc and not RS.has_method_change(case):
         case["ops"][-2]["s"]["nonorthogonal_spacing_method"] = (
             "poloidal_orthogonal_combined" if RS.method_of(case["s0"]) == "combined"
